@@ -9,7 +9,10 @@ package main
 //                                                                   `age` ago, `remain` of its lifetime left (PX = remain)
 //                 x.<at ms>.<key>                                   the memory cache loses the key (eviction / restart)
 //                 g.<at ms>.<key>                                   cacheCtl.Get
-//            -> one token per op: s | r | x | M | H<source op index>:<ttl_ttl...>
+//                 e.<at ms>.<key>.<rcode>.<ttl_ttl|x>               (round 4) cacheCtl.Store of an ERROR response (set-if-absent)
+//            -> one token per op: s | e | r | x | M | H<source op index>:<ttl_ttl...>
+//   redisneg: same driver and grammar, with mem=<0|1> on the case line: mem=0 is the redis-ONLY configuration
+//            (cache.redis set, mem_size 0); sequences positive / error (every rcode) / get
 //
 // There is no redis server in the sandbox: the real cache.RedisCache (rueidis client, RESP2, no client-side cache)
 // talks over loopback TCP to the in-process fake below (PING, GET, SET [NX] PX with exact millisecond expiry on the
@@ -34,6 +37,7 @@ import (
 
 func init() {
 	register("promote", 16, runPromote)
+	register("redisneg", 48, runPromote)
 }
 
 type fakeRedis struct {
@@ -42,6 +46,11 @@ type fakeRedis struct {
 	data map[string]fakeRedisVal
 	sets int
 	gets int
+	// round 4: observation and pacing of the SET commands as the server receives them (both optional).
+	// onSet sees the key / value octets exactly as they arrived on the wire, before the command is applied;
+	// setDelay(n) is slept before the reply to the n-th SET is written (a slow server: the client's set loop lags).
+	onSet    func(k, v []byte, nx bool)
+	setDelay func(n int) time.Duration
 }
 
 type fakeRedisVal struct {
@@ -57,6 +66,13 @@ func newFakeRedis() (*fakeRedis, error) {
 	r := &fakeRedis{l: l, data: map[string]fakeRedisVal{}}
 	go r.serve()
 	return r, nil
+}
+
+// observe installs the SET observer and the SET pacing (see the struct)
+func (r *fakeRedis) observe(onSet func(k, v []byte, nx bool), setDelay func(n int) time.Duration) {
+	r.mu.Lock()
+	r.onSet, r.setDelay = onSet, setDelay
+	r.mu.Unlock()
 }
 
 func (r *fakeRedis) url() string {
@@ -176,6 +192,18 @@ func (r *fakeRedis) conn(c net.Conn) {
 				bw.WriteString("-ERR syntax error\r\n")
 				break
 			}
+			r.mu.Lock()
+			onSet, setDelay, nth := r.onSet, r.setDelay, r.sets
+			r.mu.Unlock()
+			if onSet != nil {
+				onSet(args[1], args[2], nx)
+			}
+			if setDelay != nil {
+				if d := setDelay(nth); d > 0 {
+					bw.Flush()
+					time.Sleep(d)
+				}
+			}
 			now := time.Now()
 			r.mu.Lock()
 			r.sets++
@@ -213,6 +241,7 @@ type promoOp struct {
 	age    time.Duration
 	remain time.Duration
 	ttls   []uint32
+	rcode  int
 }
 
 func promoTTLs(s string) ([]uint32, error) {
@@ -247,6 +276,11 @@ func promoParse(s string) ([]promoOp, error) {
 		switch {
 		case op.kind == 's' && len(p) == 4:
 			op.ttls, err = promoTTLs(p[3])
+		case op.kind == 'e' && len(p) == 5:
+			op.rcode, err = strconv.Atoi(p[3])
+			if err == nil {
+				op.ttls, err = promoTTLs(p[4])
+			}
 		case op.kind == 'r' && len(p) == 6:
 			var age, remain int64
 			age, err = strconv.ParseInt(p[3], 10, 64)
@@ -286,7 +320,11 @@ func runPromote(id string, parts []string) string {
 			if err != nil {
 				return "HARNESS-ERROR " + err.Error()
 			}
-			c, err := router.VerifC08NewCacheRedis(maxttl, 1<<22, fr.url())
+			memSize := 1 << 22
+			if f["mem"] == "0" {
+				memSize = 0 // redis-only configuration
+			}
+			c, err := router.VerifC08NewCacheRedis(maxttl, memSize, fr.url())
 			if err != nil {
 				fr.close()
 				return "HARNESS-ERROR " + err.Error()
@@ -315,14 +353,14 @@ func runPromote(id string, parts []string) string {
 				name := c08Name(id, attempt*1000+op.key)
 				q := c08Question(name)
 				switch op.kind {
-				case 's':
-					m, err := dnsmsg.UnpackMsg(c08Wire(uint16(i+1), name, 0, false, op.ttls))
+				case 's', 'e':
+					m, err := dnsmsg.UnpackMsg(c08Wire(uint16(i+1), name, op.rcode, false, op.ttls))
 					if err != nil {
 						return "HARNESS-ERROR wire"
 					}
 					c.Store(q, netip.Addr{}, m)
 					dnsmsg.ReleaseMsg(m)
-					out = append(out, "s")
+					out = append(out, string(op.kind))
 				case 'r':
 					m, err := dnsmsg.UnpackMsg(c08Wire(uint16(i+1), name, 0, false, op.ttls))
 					if err != nil {
@@ -337,6 +375,9 @@ func runPromote(id string, parts []string) string {
 					fr.put(k, v, op.remain)
 					out = append(out, "r")
 				case 'x':
+					if memSize == 0 {
+						return "HARNESS-ERROR op x without a memory backend"
+					}
 					c.DropMemory(q)
 					out = append(out, "x")
 				case 'g':
